@@ -294,6 +294,40 @@ def check_chain(text, parse):
             fails.append(("chain:order", {"text": text, "kind": kind}, "%s order %r, expected %r" % (kind, tags, want)))
             break
         i += 3
+    # a member raising the skip signal at a node: members before it have entered that node, nobody enters its children or leaves it - and every
+    # OTHER node is still entered by all members in order and left by all in reverse (the skip is local to that node)
+    base = [(kind, tag, id(node)) for kind, tag, node in log]
+    entered = [node for kind, tag, node in log if kind == "enter" and tag == "a"]
+    picks = sorted({0, 1, len(entered) // 2, len(entered) - 1} & set(range(len(entered))))
+    for k in picks:
+        target = entered[k]
+        inside = {id(target)} | {id(x) for x in descendants(target)}
+        for pos in (0, 1, 2):
+            log2 = []
+
+            class Skipper(Recorder):
+                def enter(self, node):
+                    if node is target:
+                        raise SkipNode()
+                    return Recorder.enter(self, node)
+            members = [Recorder("a", log2), Recorder("b", log2), Recorder("c", log2)]
+            members[pos] = Skipper("abc"[pos], log2)
+            try:
+                ChainedVisitor(*members).visit(doc)
+            except Exception as e:
+                fails.append(("chain:skip-is-local", {"text": text, "node": type(target).__name__, "member": pos}, "the chained traversal raised %r" % (e,)))
+                continue
+            got = [(kind, tag, id(node)) for kind, tag, node in log2 if id(node) not in inside]
+            want = [e for e in base if e[2] not in inside]
+            at_target = [(kind, tag) for kind, tag, node in log2 if node is target]
+            if got != want:
+                j = next((i for i, (x, y) in enumerate(zip(got, want)) if x != y), min(len(got), len(want)))
+                fails.append(("chain:skip-is-local", {"text": text, "node": type(target).__name__, "member": pos, "k": k},
+                              "member %d of a chain skips a %s: the enter / leave events of the OTHER nodes differ from the unskipped traversal (%d events instead of %d, "
+                              "first difference at event %d)" % (pos, type(target).__name__, len(got), len(want), j)))
+            elif at_target != [("enter", t) for t in "abc"[:pos]]:
+                fails.append(("chain:skip-is-local", {"text": text, "node": type(target).__name__, "member": pos, "k": k},
+                              "events at the skipped node are %r, expected only the enters of the members before the one that skipped" % (at_target,)))
     # an edit made by a chained member must survive
     doc = parse(text)
     ref = parse(text)
@@ -315,4 +349,45 @@ def check_chain(text, parse):
         getattr(w[0], w[1]).pop(w[2])
         if strip(doc.to_dict()) != strip(ref.to_dict()):
             fails.append(("chain:edit-survives", {"text": text, "action": "delete"}, "a deletion made by a chained visitor is lost"))
+    return fails
+
+
+def check_transforms(text, parse):
+    """the document transforms shipped in py_gql.utilities.ast_transforms change what they document and nothing else (edits stay local):
+    RemoveFieldAliasesVisitor clears the alias of every field; the two case-converting visitors rename every field; everything else -
+    arguments, directives, sub-selections, the other definitions - is as parsed"""
+    from py_gql._string_utils import camelcase_to_snakecase, snakecase_to_camelcase
+    from py_gql.utilities import ast_transforms as T
+    fails = []
+
+    def edit(d, fn):
+        if isinstance(d, dict):
+            out = {k: edit(v, fn) for k, v in d.items()}
+            if d.get("__kind__") == "Field":
+                fn(out)
+            return out
+        if isinstance(d, list):
+            return [edit(x, fn) for x in d]
+        return d
+
+    def no_alias(f):
+        f["alias"] = None
+
+    def rename(conv):
+        def fn(f):
+            f["name"] = dict(f["name"], value=conv(f["name"]["value"]))
+        return fn
+    for cls, fn in ((T.RemoveFieldAliasesVisitor, no_alias), (T.CamelCaseToSnakeCaseVisitor, rename(camelcase_to_snakecase)),
+                    (T.SnakeCaseToCamelCaseVisitor, rename(snakecase_to_camelcase))):
+        want = strip(edit(parse(text).to_dict(), fn))
+        doc = parse(text)
+        try:
+            cls().visit(doc)
+        except Exception as e:
+            fails.append(("transform:edits-stay-local", {"text": text, "transform": cls.__name__}, "%s raised %r" % (cls.__name__, e)))
+            continue
+        got = strip(doc.to_dict())
+        if got != want:
+            fails.append(("transform:edits-stay-local", {"text": text, "transform": cls.__name__},
+                          "%s changed more (or less) than it documents on %r" % (cls.__name__, text[:120])))
     return fails
